@@ -692,10 +692,10 @@ class SurfaceContainer(AbstractContainer):
 
         # Don't re-tessellate if everything is in place (tessellated with the same arguments)
         tsl_args = dict((key, val) for key, val in kwargs.items() if key != 'force')
+        tsl_args['delta'] = update_delta
         if all((self._cache['vertices'], self._cache['faces'])) and not force_tsl and \
                 tsl_args == getattr(self, '_tsl_args', tsl_args):
             return
-        self._tsl_args = tsl_args
         new_elems = []
         if num_procs > 1:
             with utl.pool_context(processes=num_procs) as pool:
@@ -739,6 +739,7 @@ class SurfaceContainer(AbstractContainer):
             f_offset += len(f)
         self._cache['vertices'] = verts
         self._cache['faces'] = faces
+        self._tsl_args = tsl_args  # remembered once the request has been served
 
     def reset(self):
         """ Resets the cache. """
